@@ -32,7 +32,7 @@ Ltac rule_fails :=
 
 (** The two loops against rules 5-8, once the geometry is known to be legal. *)
 Lemma loops_ok (o : obj) zs sd :
-  forallb (class_entry_ok o) classifications = true ->
+  forallb (class_entry_ok o) (valid_classes_spec (map JInt zs)) = true ->
   jassoc K_shape o = Some (JArr (map JInt zs)) ->
   Forall (fun z => z <> 0) zs ->
   shape_form zs ->
@@ -53,12 +53,12 @@ Proof.
     - destruct (valid_class_decodes _ _ Hin) as [b [s [Hdec _]]].
       apply (per_class_split o zs sd cl b s Hz Hdec).
       apply (check_class_ok o cl _).
-      + rewrite forallb_forall in Hwf. apply Hwf. apply (valid_classes_incl _ _ Hin).
+      + rewrite forallb_forall in Hwf. apply Hwf. exact Hin.
       + apply (mult_spec o zs sd cl b s Hs Hf Hsd Hin Hdec).
       + apply H. exact Hin.
     - destruct (valid_class_decodes _ _ Hin) as [b [s [Hdec _]]].
       apply (check_class_ok o cl (n_expected (map JInt zs) sd b s)).
-      + rewrite forallb_forall in Hwf. apply Hwf. apply (valid_classes_incl _ _ Hin).
+      + rewrite forallb_forall in Hwf. apply Hwf. exact Hin.
       + apply (mult_spec o zs sd cl b s Hs Hf Hsd Hin Hdec).
       + apply (per_class_split o zs sd cl b s Hz Hdec). apply H. exact Hin. }
   (* rules 5-7 as statements about every valid class *)
@@ -104,7 +104,7 @@ Proof.
   intros Hwf.
   destruct c as [| | | | | | o]; try (split; discriminate).
   rewrite valid_spec_rules.
-  unfold wf_domain in Hwf. apply andb_true_iff in Hwf. destruct Hwf as [Hwfs Hwfc].
+  unfold wf_domain in Hwf.
   unfold check_valid. cbn [getitem].
   (* version and required keys *)
   destruct (jassoc K_version o) as [ver|] eqn:Ever; cbn [bind].
@@ -148,6 +148,7 @@ Proof.
   destruct shv as [| | | | | l |]; try discriminate;
     try (assert (rule_ndim o = false) by (unfold rule_ndim, shape_value; rewrite Eshape; reflexivity);
          rule_fails).
+  apply andb_true_iff in Hwf. destruct Hwf as [Hwfs Hwfc].
   destruct (entries_ints l Hwfs) as [zs [-> Hz]]. cbn [bind].
   destruct ((3 <=? length (map JInt zs))%nat && (length (map JInt zs) <? 6)%nat) eqn:Elen; cbn [negb].
   2:{ assert (rule_ndim o = false).
